@@ -245,7 +245,7 @@ def run(ctx):
     S = lambda *xs: "{" + ", ".join(str(x) for x in xs) + "}"
     if ctx.quick:
         plan = [
-            ("empty", dict(D=4, Max0=2, PreName='"empty"', Sizes=S(100, CAP - 100, CAP, CAP + 1), Idx=S(0), ReMax=S(2), LoadOp="TRUE")),
+            ("empty", dict(D=4, Max0=2, PreName='"empty"', Sizes=S(100, CAP - 100, CAP + 1), Idx=S(0), ReMax=S(2), LoadOp="TRUE")),
             ("clean2", dict(D=3, Max0=3, PreName='"clean2"', Sizes=S(0, 100, CAP), Idx=S(0, 1, 2), ReMax=S(1, 3))),
             ("gap", dict(D=3, Max0=4, PreName='"gap"', Sizes=S(100, CAP), Idx=S(0, 1, 2), ReMax=S(2, 4))),
             ("gap0", dict(D=3, Max0=2, PreName='"gap0"', Sizes=S(100, CAP), Idx=S(0, 1), ReMax=S(2))),
@@ -255,6 +255,7 @@ def run(ctx):
                               LoadOp="TRUE")),
             ("max0", dict(D=2, Max0=0, PreName='"empty"', Sizes=S(0, 100), Idx=S(0), ReMax=S(0, 5000))),
             ("last", dict(D=2, Max0=5000, PreName='"last"', Sizes=S(100), Idx=S(0, 1022), ReMax=S(1023, 5000))),
+            ("all", dict(D=1, Max0=5000, PreName='"all"', Sizes=S(100), Idx=S(0), ReMax=S(5000))),
             ("full", dict(D=2, Max0=2, PreName='"full"', Sizes=S(100, 101), WSizes=S(), Idx=S(0), ReMax=S())),
             ("fn", dict(Family='"fn"')),
             ("dyn", dict(Family='"dyn"', D=3)),
@@ -274,6 +275,7 @@ def run(ctx):
                               LoadOp="TRUE")),
             ("max0", dict(D=3, Max0=0, PreName='"empty"', Sizes=S(0, 100), Idx=S(0), ReMax=S(0, 5000))),
             ("last", dict(D=3, Max0=5000, PreName='"last"', Sizes=S(100), Idx=S(0, 1022), ReMax=S(1023, 5000))),
+            ("all", dict(D=2, Max0=5000, PreName='"all"', Sizes=S(100), Idx=S(0), ReMax=S(5000))),
             ("full", dict(D=3, Max0=2, PreName='"full"', Sizes=S(0, 100, 101), WSizes=S(), Idx=S(0), ReMax=S(2))),
             ("over", dict(D=2, Max0=2, PreName='"over"', Sizes=S(0, 1), WSizes=S(), Idx=S(0), ReMax=S(2))),
             ("fn", dict(Family='"fn"')),
@@ -295,7 +297,7 @@ def run(ctx):
 
     def one(item):
         name, over = item
-        big = name in ("full", "over", "last")      # load_existing reads whole (sparse) 1 GiB files / 1023-segment listings
+        big = name in ("full", "over", "last", "all")      # load_existing reads whole (sparse) 1 GiB files / 1023-segment listings
         return mc_and_run(ctx, name, kd, totals, seen, shards=2 if big else 8, par=share, **over)
 
     def rand(_):
